@@ -124,6 +124,15 @@ CHECKS = {
         design="§8 C17",
         technique="Lean 4 proof over a table regenerated from source + L1 differential on real expansions",
         note=TB + " The wire effect of serde(default) is exercised on compiled contracts by the missing-field documents of C03."),
+    "C18": dict(
+        text="Machine-checked proofs on the model of the macros' validations: one theorem per documented rule (constructor, instantiate/migrate cardinality, interface "
+             "restrictions, every attribute-argument vocabulary via the regenerated tables, entry-point concrete types) that a program breaking it is rejected whatever the "
+             "rest looks like; for the reply table: diagnostics are monotone over the fold, an excluding outcome under an existing name is rejected, shape errors of a method "
+             "opening an entry are kept. Tie: clean/dirty of the real expansion for valid programs, ~30 kinds of one-edit-invalid programs and every small reply table "
+             "(model vs real vs a declarative statement of the rule), plus a rustc batch checking that the build fails with an error inside the annotated item.",
+        design="§8 C18",
+        technique="Lean 4 proof over regenerated vocabularies + exhaustive/differential L1 status stream + rustc batch",
+        note=TB + " Diagnostic texts are not compared; span accuracy only on the rustc batch."),
 }
 
 ALL = ["C%02d" % i for i in range(1, 21)]
@@ -140,12 +149,12 @@ def main():
             "enable": "SYLVIA_VERIF_HARNESS=/verif/harness/hook/hook_main.rs cargo test --offline -p sylvia-derive --features verif-hook --lib -- verif_hook::verif_entry --exact",
             "baseline_off_cmd": "cd /repo && cargo test --workspace --no-fail-fast --offline",
             "source_commits": ["f0dc71d"],
-            "fix_commits": ["a51e7a3", "fead2e3", "dbb2669", "e4181bc", "dd80324"],
+            "fix_commits": ["a51e7a3", "fead2e3", "dbb2669", "e4181bc", "dd80324", "43435f7"],
             "add_only": True,
         },
         "engines": [
             {"name": "lean", "path": "lean/", "serves_properties": sorted(CHECKS), "kind_free_text": "Lean 4 model + theorems + svmodel line-protocol driver"},
-            {"name": "hook", "path": "harness/hook/", "serves_properties": ["C06", "C13", "C01", "C02", "C03", "C04", "C05", "C15", "C17"], "kind_free_text": "in-process macro expansion + source translator, compiled into sylvia-derive tests via the verif-hook feature (L1)"},
+            {"name": "hook", "path": "harness/hook/", "serves_properties": ["C06", "C13", "C01", "C02", "C03", "C04", "C05", "C15", "C17", "C18"], "kind_free_text": "in-process macro expansion + source translator, compiled into sylvia-derive tests via the verif-hook feature (L1)"},
             {"name": "rt", "path": "harness/rt/", "serves_properties": ["C05", "C01", "C11", "C20"], "kind_free_text": "Rust harness calling the real runtime library (L3)"},
             {"name": "corpus", "path": "harness/corpus/ + vlib/corpus.py", "serves_properties": ["C01", "C02", "C03", "C04", "C05", "C07", "C08", "C09"], "kind_free_text": "generated contracts compiled against /repo/sylvia with echo handlers (L2)"},
         ],
